@@ -262,8 +262,16 @@ def summarize(fn, exceptional=False, extra_forward=None, roles=None, inline=None
         # drop duplicate conditions
         cs = []
         for c in conds:
+            # !(x) taken T  ==  x taken F
+            while c[0].startswith('!(') and c[0].endswith(')') and _balanced(c[0][2:-1]):
+                c = (c[0][2:-1], not c[1])
             if c not in cs:
                 cs.append(c)
+        seen = {}
+        for c, tk in cs:
+            if c in seen and seen[c] != tk:
+                return
+            seen[c] = tk
         s.conds = cs
         s.fwd = fwds
         s.calls = calls
@@ -278,6 +286,18 @@ def summarize(fn, exceptional=False, extra_forward=None, roles=None, inline=None
 
     run_fn(fn, {}, 0, ([], [], [], {}, {}), top_cont)
     return out
+
+
+def _balanced(x):
+    d = 0
+    for ch in x:
+        if ch == '(':
+            d += 1
+        elif ch == ')':
+            d -= 1
+            if d < 0:
+                return False
+    return d == 0
 
 
 def describe(summaries):
